@@ -160,6 +160,41 @@ pub fn expand_derive(item: &str) -> Result<TokenStream, String> {
     catch_unwind(AssertUnwindSafe(|| dxlib::derive_ex_derive(i))).map_err(|e| format!("panic: {}", panic_msg(e)))
 }
 
+/// Like `expand_derive`, followed by what rustc does with the item afterwards: under `#[derive(Ex)]` only the bare
+/// `#[derive_ex(..)]` is an inert helper attribute; a list written with the crate path
+/// (`#[derive_ex::derive_ex(..)]`) is an attribute-macro invocation that rustc expands on the item in its own right.
+/// The result is what the derive generated followed by what those invocations generate (without the item).
+pub fn expand_derive_iterated(item: &str) -> Result<TokenStream, String> {
+    use quote::ToTokens;
+    let mut out = expand_derive(item)?;
+    let mut parsed: syn::Item = match syn::parse_str(item) {
+        Ok(i) => i,
+        Err(_) => return Ok(out),
+    };
+    let attrs: &mut Vec<syn::Attribute> = match &mut parsed {
+        syn::Item::Struct(x) => &mut x.attrs,
+        syn::Item::Enum(x) => &mut x.attrs,
+        _ => return Ok(out),
+    };
+    let pos = attrs.iter().position(|a| {
+        let segs: Vec<String> = a.path().segments.iter().map(|s| s.ident.to_string()).collect();
+        segs == ["derive_ex", "derive_ex"]
+    });
+    let Some(pos) = pos else { return Ok(out) };
+    let a = attrs.remove(pos);
+    let args: TokenStream = match &a.meta {
+        syn::Meta::List(l) => l.tokens.clone(),
+        _ => TokenStream::new(),
+    };
+    let rest = parsed.to_token_stream().to_string();
+    let ts = expand_attr_iterated(&args.to_string(), &rest)?;
+    let file: syn::File = syn::parse2(ts).map_err(|e| format!("expansion of the path-qualified list does not parse: {e}"))?;
+    for i in file.items.into_iter().skip(1) {
+        out.extend(i.to_token_stream());
+    }
+    Ok(out)
+}
+
 /// Flatten a token stream to a sequence of atoms, ignoring spacing / jointness.
 pub fn flatten(ts: TokenStream) -> Vec<String> {
     let mut out = Vec::new();
